@@ -134,6 +134,7 @@ def build(u):
     u.raw(STUBS.split('pub open spec fn code_is_default')[0])
     u.item(T + 'method/code.rs', 'struct', 'Label', derives=['Copy', 'Clone', 'PartialEq', 'Eq'])
     u.item(T + 'attribute.rs', 'struct', 'Attribute', derives=[])
+    u.item(T + 'method/code.rs', 'struct', 'Lv', derives=[])
     u.item(T + 'method/code.rs', 'struct', 'InstructionListEntry', derives=[])
     u.item(T + 'method/code.rs', 'struct', 'Code', derives=[])
     u.item(T + 'method.rs', 'struct', 'Method', derives=[])
